@@ -22,7 +22,11 @@ import (
 // process), accepts connections, reads the byte stream of each one frame by
 // frame with exact-size reads (never past a scripted cut point), and can go
 // away before, between or in the middle of frames by closing (FIN, or RST if
-// unread data is pending) or resetting (SO_LINGER 0).  Standard library only.
+// unread data is pending) or resetting (SO_LINGER 0).  It can also STALL at such
+// a point: it stays connected but stops reading until the scenario lets it go
+// on (the kernel's buffers fill, the client's write deadline expires in the
+// middle of a frame); then it reads on to the end of the stream.  A scenario
+// may own several collectors (several server addresses).  Standard library only.
 
 const soReusePort = 0xf // linux
 
@@ -33,6 +37,27 @@ type cutSpec struct {
 	Where string // "before" | "header" (5 bytes in) | "mid" (half of the frame) | "last" (one byte short)
 	Kind  string // "closed" | "reset"
 }
+
+// stallSpec: at this point of this frame of the connection the collector stops reading until resume is closed.
+type stallSpec struct {
+	Frame   int
+	Where   string        // "before" | "header" (5 bytes in) | "mid" (half of the payload) | "last" (one byte short)
+	resume  chan struct{} // closed by the scenario
+	entered chan struct{} // closed by the collector when it stops reading
+	once    sync.Once
+	ronce   sync.Once
+}
+
+func newStall(frame int, where string) *stallSpec {
+	return &stallSpec{Frame: frame, Where: where, resume: make(chan struct{}), entered: make(chan struct{})}
+}
+
+func (st *stallSpec) hold() {
+	st.once.Do(func() { close(st.entered) })
+	<-st.resume
+}
+
+func (st *stallSpec) release() { st.ronce.Do(func() { close(st.resume) }) }
 
 type frameRec struct {
 	ID    int
@@ -58,6 +83,8 @@ type connRec struct {
 }
 
 type collector struct {
+	name     string // "A", "B", ...: what the events call this collector
+	stalls   map[int]*stallSpec
 	port     int
 	resv     int
 	mu       sync.Mutex
@@ -138,9 +165,10 @@ func (co *collector) up() error {
 			if s, ok := co.cuts[cr.idx]; ok {
 				cs = &s
 			}
+			st := co.stalls[cr.idx]
 			co.mu.Unlock()
 			atomic.AddInt32(&co.accepted, 1)
-			go cr.run(cs, co.dialed)
+			go cr.run(cs, st, co.dialed)
 		}
 	}()
 	return nil
@@ -154,6 +182,13 @@ func (co *collector) down() {
 	if ln != nil {
 		ln.Close()
 		co.lnWG.Wait()
+	}
+}
+
+// resumeAll lets every stalled connection read on.
+func (co *collector) resumeAll() {
+	for _, st := range co.stalls {
+		st.release()
 	}
 }
 
@@ -262,7 +297,7 @@ func idHint(p []byte) (ptype int, id int) {
 	return
 }
 
-func (cr *connRec) run(cs *cutSpec, dialed func(int) bool) {
+func (cr *connRec) run(cs *cutSpec, st *stallSpec, dialed func(int) bool) {
 	defer close(cr.done)
 	buf := make([]byte, 256<<10)
 	endErr := func(partial int, hdr []byte) {
@@ -290,12 +325,26 @@ func (cr *connRec) run(cs *cutSpec, dialed func(int) bool) {
 			cr.goAway(cs.Kind)
 			return
 		}
+		stallHere := st != nil && st.Frame == fi
+		if stallHere && st.Where == "before" {
+			st.hold()
+		}
 		hb := make([]byte, 0, hdrLen)
 		want := hdrLen
 		if cutHere && cs.Where == "header" {
 			want = 5
 		}
-		n, hb, err := cr.readN(buf, want, nil, hb)
+		first := want
+		if stallHere && st.Where == "header" && want == hdrLen {
+			first = 5
+		}
+		n, hb, err := cr.readN(buf, first, nil, hb)
+		if err == nil && first < want {
+			var m int
+			st.hold()
+			m, hb, err = cr.readN(buf, want-first, nil, hb)
+			n += m
+		}
 		if err != nil {
 			endErr(n, nil)
 			return
@@ -327,7 +376,26 @@ func (cr *connRec) run(cs *cutSpec, dialed func(int) bool) {
 		}
 		h := sha256.New()
 		head := make([]byte, 0, 40)
-		n, head, err = cr.readN(buf, want, h, head)
+		first = want
+		if stallHere && (st.Where == "mid" || st.Where == "last") {
+			first = f.Plen / 2
+			if st.Where == "last" {
+				first = f.Plen - 1
+			}
+			if first < 0 {
+				first = 0
+			}
+			if first > want {
+				first = want
+			}
+		}
+		n, head, err = cr.readN(buf, first, h, head)
+		if err == nil && stallHere && (st.Where == "mid" || st.Where == "last") {
+			var m int
+			st.hold()
+			m, head, err = cr.readN(buf, want-first, h, head)
+			n += m
+		}
 		if err != nil {
 			endErr(hdrLen+n, hb)
 			return
